@@ -3,7 +3,11 @@
    Model: coq/Valid/ValidDefs.v (holdout_validation::init, dss::init / shake /
    shake_impl / close / move_to_validation with libstdc++'s bidirectional
    std::partition, and the validation slice of src_search::tune_parameters),
-   tied to /repo/src by the correspondence check of checks/c16.py.
+   which INTERPRETS coq/Gen/ValidFacts.v, regenerated from holdout_validation.cc
+   and dss.cc on every run (skip expression, early return, loop header,
+   weight(), the guard of shake, the calls of init / shake / close /
+   clear_evaluators, the statement sequence of shake_impl), and is tied to
+   /repo/src by the correspondence check of checks/c16.py.
 
    [step c o st ds = Some (st', ds', r)]: call [o] on state [st] with the draw
    stream [ds] stays within defined behaviour, leaves state [st'], the unused
@@ -114,9 +118,9 @@ Theorem C16_shake_defined : forall (P : Type) c gen (st : state P) bs rest,
 Proof. exact dss_shake_progress. Qed.
 Print Assumptions C16_shake_defined.
 
-Theorem C16_dss_init_defined : forall (P : Type) c (st : state P) bs rest,
+Theorem C16_dss_init_defined : forall (P : Type) c run (st : state P) bs rest,
   target_ok c (population P st) -> 2 <= population P st -> Z.of_nat (length bs) = population P st ->
-  exists st', dss_init P c st (map DBool bs ++ rest) = Some (st', rest).
+  exists st', dss_init P c run st (map DBool bs ++ rest) = Some (st', rest).
 Proof. exact dss_init_progress. Qed.
 Print Assumptions C16_dss_init_defined.
 
@@ -132,11 +136,19 @@ Proof. exact dss_history_defined. Qed.
 Print Assumptions C16_dss_history_defined.
 
 (* closing returns all examples to a single set (and clears the evaluators) *)
-Theorem C16_close_single_set : forall (P : Type) (st : state P),
-  training (dss_close P st) = [] /\ validation (dss_close P st) = validation st ++ training st
-  /\ clr_t (dss_close P st) = clr_t st + 1 /\ clr_v (dss_close P st) = clr_v st + 1.
+Theorem C16_close_single_set : forall (P : Type) c run (st : state P) ds,
+  exists st', dss_close P c run st ds = Some (st', ds)
+    /\ training st' = [] /\ validation st' = validation st ++ training st
+    /\ clr_t st' = clr_t st + 1 /\ clr_v st' = clr_v st + 1.
 Proof. exact close_single_set_thm. Qed.
 Print Assumptions C16_close_single_set.
+
+(* the weight that drives the draw is difficulty + age^3 in uintmax_t arithmetic (the
+   expression is regenerated from weight() in dss.cc) *)
+Theorem C16_weight_documented : forall (P : Type) (e : example P),
+  weight P e = (diff e + age e * age e * age e) mod two64.
+Proof. exact weight_documented. Qed.
+Print Assumptions C16_weight_documented.
 
 (* H_target holds of the exact value of target_size, for every size *)
 Theorem C16_target_size_in_range : forall s, 2 <= s -> 1 <= target_q s < s.
@@ -203,7 +215,7 @@ Proof. vm_compute. reflexivity. Qed.
 (* the fallback: nobody selected (all draws false) -> target_size examples *)
 Example dss_fallback_runs :
   option_map (fun r => (map uid (training (fst r)), map uid (validation (fst r))))
-    (dss_init unit (cfg_q 20 1) st5 (map DBool [false; false; false; false; false]))
+    (dss_init unit (cfg_q 20 1) 0 st5 (map DBool [false; false; false; false; false]))
   = Some ([3; 4], [0; 1; 2]).
 Proof. vm_compute. reflexivity. Qed.
 
